@@ -270,6 +270,31 @@ def partial_fault_cases(shard, nshards):
                                         rng_seed=3, lat=lat, same_leader=True)
 
 
+ABORTABLE_SEQS = [["begin", "send0", "send1", "abort", "begin", "send0", "commit"],
+                  ["begin", "send0", "send1", "commit", "abort", "begin", "send0", "commit"],
+                  ["begin", "send1", "send0", "send1", "abort", "begin", "send1", "commit"],
+                  ["begin", "send0", "offsets", "abort", "begin", "send0", "commit"],
+                  ["begin", "offsets", "send0", "send1", "abort", "begin", "offsets", "commit"],
+                  ["begin", "send0", "send1", "offsets", "commit", "abort", "begin", "send1", "offsets", "commit"],
+                  ["ctx_exc", "begin", "send0", "send1", "abort", "ctx_ok"]]
+
+
+def abortable_fault_cases(shard, nshards):
+    """An abortable error (authorization failure) hits the k-th AddPartitionsToTxn / AddOffsetsToTxn /
+    TxnOffsetCommit of a transaction that has ALREADY added and written other partitions (sends awaited one by
+    one) or not (sends issued back to back): the abort must undo everything and the next transaction must stand
+    on its own."""
+    i = 0
+    for seq in ABORTABLE_SEQS:
+        for sel, code in (("add_partitions", 29), ("add_offsets", 30), ("txn_offset_commit", 30)):
+            for k in (0, 1, 2):
+                for waits in ([1], [0], [1, 0]):
+                    i += 1
+                    if i % nshards == shard:
+                        yield make_case(seq, {"sel": sel, "k": k, "act": "error", "code": code}, waits=waits, rng_seed=5,
+                                        lat=[0.001], same_leader=bool(k % 2))
+
+
 def strategy():
     from hypothesis import strategies as st
 
@@ -318,6 +343,8 @@ def campaigns(tier):
     n = 6 if th else 5
     return [Campaign("call_sequences", "enum", execute=execute, cases=lambda s, k: enum_cases(s, k, n),
                      exhaustive=True, setup=TS.setup),
+            Campaign("abortable_fault", "enum", execute=execute, cases=abortable_fault_cases, exhaustive=True,
+                     setup=TS.setup),
             Campaign("partial_produce_fault", "enum", execute=execute, cases=partial_fault_cases, exhaustive=True,
                      setup=TS.setup),
             Campaign("sequence_x_fault", "hyp", execute=execute, strategy=strategy, examples=40000 if th else 2500,
